@@ -24,23 +24,43 @@ theorem agree_project (cfg : Cfg) (h : cfgOk cfg = true) : Agree cfg.display (de
   cases p <;> simp [isPerm] at hp <;>
     by_cases h1 : cfg.display.contains Word.none <;> simp_all
 
-/-! ### facts about the generated tables (checked by evaluation; editing a `prune` changes them) -/
-
-theorem tbl_filtered : ∀ pk ck : Kind, kidOk pk ck = true → ck ≠ .enum → classOf pk ≠ .none →
-    filteredIn (classOf pk) (listOf ck) = !alwaysShown ck := by
+theorem tbl_filtered : ∀ pk ck : Kind, kidOk pk ck = true → gapKind ck = false → classOf pk ≠ .none →
+    filteredIn (classOf pk) (listOf ck) = !ownDescr pk ck := by
   intro pk ck; cases pk <;> cases ck <;> decide
 
-theorem tbl_emptied : ∀ pk ck : Kind, kidOk pk ck = true → ck ≠ .enum → isProc pk = true →
-    emptiedIn (classOf pk) (listOf ck) = !alwaysShown ck := by
+theorem tbl_emptied : ∀ pk ck : Kind, kidOk pk ck = true → gapKind ck = false → isProc pk = true →
+    emptiedIn (classOf pk) (listOf ck) = !ownDescr pk ck := by
   intro pk ck; cases pk <;> cases ck <;> decide
 
-theorem tbl_recurse : ∀ pk ck : Kind, kidOk pk ck = true → ck ≠ .enum → classOf pk ≠ .none →
+theorem tbl_recurse : ∀ pk ck : Kind, kidOk pk ck = true → gapKind ck = false → classOf pk ≠ .none →
     recurseIn (classOf pk) (listOf ck) = (classOf ck != .none) := by
   intro pk ck; cases pk <;> cases ck <;> decide
 
-theorem tbl_leaf_kids : ∀ pk ck : Kind, kidOk pk ck = true → classOf pk = .none → pk ≠ .file → pk ≠ .enum →
-    ck = .arg := by
+/-- the never-filtered kinds are touched by no `prune()` at all -/
+theorem tbl_gap_untouched : ∀ pk ck : Kind, kidOk pk ck = true → gapKind ck = true →
+    filteredIn (classOf pk) (listOf ck) = false ∧ emptiedIn (classOf pk) (listOf ck) = false
+    ∧ recurseIn (classOf pk) (listOf ck) = false ∧ visibleOnlyIn (classOf pk) (listOf ck) = false := by
   intro pk ck; cases pk <;> cases ck <;> decide
+
+theorem tbl_unfiltered_scope : ∀ pk ck : Kind, classOf pk ≠ .none → unfiltered pk ck = gapKind ck := by
+  intro pk ck; cases pk <;> cases ck <;> decide
+
+/-- below an entity without a `prune()`: what is not in a never-filtered position belongs to the parent's own description -/
+theorem tbl_leaf_kids : ∀ pk ck : Kind, kidOk pk ck = true → classOf pk = .none → pk ≠ .file →
+    (unfiltered pk ck = false → ownDescr pk ck = true)
+    ∧ ck ≠ .namelist ∧ (isProc ck = true → summarised pk = true)
+    ∧ (isProc ck = false → (ck = .arg ∨ ck = .retvar ∨ ck = .variable)) := by
+  intro pk ck; cases pk <;> cases ck <;> decide
+
+theorem tbl_no_kids : ∀ ck k : Kind, (ck = .arg ∨ ck = .retvar ∨ ck = .variable) → kidOk ck k = false := by
+  intro ck k h
+  rcases h with h | h | h <;> subst h <;> cases k <;> decide
+
+theorem tbl_nml_section : ∀ pk : Kind, kidOk pk .namelist = true → nmlSection pk = namelistDescribed pk := by
+  intro pk; cases pk <;> decide
+
+theorem tbl_summary : ∀ pk : Kind, summaryIn pk = summarised pk := by
+  intro pk; cases pk <;> decide
 
 theorem tbl_arg_no_kids : ∀ ck : Kind, kidOk .arg ck = false := by
   intro ck; cases ck <;> decide
@@ -48,14 +68,26 @@ theorem tbl_arg_no_kids : ∀ ck : Kind, kidOk .arg ck = false := by
 theorem tbl_proc_class : ∀ k : Kind, isProc k = true → classOf k ≠ .none := by
   intro k; cases k <;> decide
 
-theorem tbl_always_leaf : ∀ k : Kind, alwaysShown k = true → classOf k = .none ∧ k ≠ .file ∧ k ≠ .enum := by
+theorem tbl_class_not_nml : ∀ k : Kind, classOf k ≠ .none → (k == .namelist) = false := by
   intro k; cases k <;> decide
 
-theorem tbl_args_kept : ∀ cl : PClass, emptiedIn cl "args" = false ∧ filteredIn cl "args" = false := by
-  intro cl; cases cl <;> decide
+theorem tbl_gap_leaf : ∀ k : Kind, gapKind k = true → classOf k = .none ∧ k ≠ .file ∧ isProc k = false := by
+  intro k; cases k <;> decide
+
+theorem tbl_own_leaf : ∀ pk ck : Kind, kidOk pk ck = true → classOf pk ≠ .none → ownDescr pk ck = true →
+    classOf ck = .none ∧ ck ≠ .file ∧ ck ≠ .namelist := by
+  intro pk ck; cases pk <;> cases ck <;> decide
+
+theorem tbl_arglike_kept : ∀ (cl : PClass) (k : Kind), isArgLike k = true →
+    emptiedIn cl (listOf k) = false ∧ filteredIn cl (listOf k) = false
+    ∧ recurseIn cl (listOf k) = false ∧ visibleOnlyIn cl (listOf k) = false := by
+  intro cl k; cases cl <;> cases k <;> decide
 
 theorem tbl_kid_not_file : ∀ pk ck : Kind, kidOk pk ck = true → pk ≠ .file → ck ≠ .file := by
   intro pk ck; cases pk <;> cases ck <;> decide
+
+theorem tbl_kid_not_nml : ∀ ck : Kind, gapKind ck = false → (ck == .namelist) = false := by
+  intro ck; cases ck <;> decide
 
 /-! ### small structural facts -/
 
@@ -64,61 +96,78 @@ theorem setVisible_info_kind (e : Ent) : e.setVisible.info.kind = e.info.kind :=
 theorem setVisible_info_id (e : Ent) : e.setVisible.info.id = e.info.id := by
   cases e; rfl
 
-theorem setVisible_rendered (e : Ent) (b : Bool) : e.setVisible.rendered b = e.rendered b := by
+theorem setVisible_rendered (e : Ent) (pk : Kind) : e.setVisible.rendered pk = e.rendered pk := by
   cases e with
   | mk i cs => simp [Ent.setVisible, Ent.rendered]
 
 theorem prune_info (cfg : Cfg) (d : List Word) (e : Ent) : (prune cfg d e).info = e.info := by
   cases e; simp [prune, Ent.info]
 
-theorem wfKids_arg_nil : (cs : Ents) → wfKids .arg cs = true → cs = .nil
+theorem wfKids_nil_of_no_kids (k : Kind) (h : ∀ ck, kidOk k ck = false) : (cs : Ents) → wfKids k cs = true → cs = .nil
   | .nil, _ => rfl
-  | .cons e rest, h => by
-    simp [wfKids, tbl_arg_no_kids] at h
+  | .cons e rest, hw => by
+    simp [wfKids, h] at hw
 
-/-- the children of an interface-like entity are dummy arguments without children; they are all
-    rendered and all selected -/
-theorem leaf_kids (cfg : Cfg) (b off : Bool) (D : Word → Bool) (pk : Kind)
-    (hc : classOf pk = .none) (hf : pk ≠ .file) (he : pk ≠ .enum) :
-    (cs : Ents) → wfKids pk cs = true → cs.rendered b = selKids cfg b off D cs
-  | .nil, _ => by simp [Ents.rendered, selKids]
-  | .cons (.mk i ks) rest, h => by
+/-- below an entity that has no `prune()` nothing is removed; all of it is selected when the
+    project meets no never-filtered position with an unselected entity -/
+theorem leaf_kids (cfg : Cfg) (D : Word → Bool) (pk : Kind)
+    (hc : classOf pk = .none) (hf : pk ≠ .file) :
+    (cs : Ents) → wfKids pk cs = true → outsideKids cfg pk false D cs = true →
+    cs.rendered pk = selKids cfg pk false D cs
+  | .nil, _, _ => by simp [Ents.rendered, selKids]
+  | .cons (.mk i ks) rest, h, ho => by
     simp only [wfKids, Bool.and_eq_true, Ent.info] at h
     obtain ⟨⟨hk, hw⟩, hr⟩ := h
-    have harg : i.kind = .arg := tbl_leaf_kids pk i.kind hk hc hf he
+    simp only [outsideKids, Bool.and_eq_true, Ent.info] at ho
+    obtain ⟨⟨ho1, _⟩, ho3⟩ := ho
+    obtain ⟨hown, hnn, hsum, hnp⟩ := tbl_leaf_kids pk i.kind hk hc hf
+    have ih := leaf_kids cfg D pk hc hf rest hr ho3
+    have hsel : selects cfg pk false D i = true := by
+      cases hu : unfiltered pk i.kind
+      · simp [selects, hown hu]
+      · have hn : (i.kind != Kind.namelist) = true := by simpa using hnn
+        simpa [hu, hn] using ho1
     simp only [wf, Bool.and_eq_true] at hw
-    have hnil : ks = .nil := wfKids_arg_nil ks (by rw [← harg]; exact hw.2)
-    subst hnil
-    have ih := leaf_kids cfg b off D pk hc hf he rest hr
-    simp [Ents.rendered, selKids, Ent.rendered, sel, Ent.info, harg, alwaysShown, isProc, ih, Ents.argIds]
+    have hnml : (i.kind == Kind.namelist) = false := by simpa using hnn
+    cases hp : isProc i.kind
+    · have hnk := fun k => tbl_no_kids i.kind k (hnp hp)
+      have hnil := wfKids_nil_of_no_kids i.kind hnk ks hw.2
+      subst hnil
+      simp [Ents.rendered, selKids, Ent.rendered, sel, Ent.info, hsel, hp, hnml, ih]
+    · have hs := hsum hp
+      simp [Ents.rendered, selKids, Ent.rendered, sel, Ent.info, hsel, hp, hs, tbl_summary, hnml, ih]
 
-/-- an entity of a kind that has no `prune` (variable, binding, interface, dummy argument ...)
-    is rendered with everything below it, and all of that is selected -/
-theorem leaf_ent (cfg : Cfg) (pproc : Bool) (D : Word → Bool) (e : Ent) (hw : wf e = true)
-    (hc : classOf e.info.kind = .none) (hf : e.info.kind ≠ .file) (he : e.info.kind ≠ .enum) :
-    e.rendered pproc = sel cfg pproc D e := by
+/-- an entity of a kind that has no `prune` (variable, binding, interface, common block, enumeration,
+    namelist, dummy argument ...) is rendered with everything below it, and all of that is selected -/
+theorem leaf_ent (cfg : Cfg) (pk : Kind) (D : Word → Bool) (e : Ent) (hw : wf e = true)
+    (hc : classOf e.info.kind = .none) (hf : e.info.kind ≠ .file)
+    (hn : e.info.kind = .namelist → nmlSection pk = true)
+    (ho : outside cfg pk D e = true) :
+    e.rendered pk = sel cfg pk D e := by
   cases e with
   | mk i cs =>
-    simp only [Ent.info] at hc hf he
+    simp only [Ent.info] at hc hf hn
     have hp : isProc i.kind = false := by
       cases h : isProc i.kind
       · rfl
       · exact absurd hc (tbl_proc_class _ h)
     simp only [wf, Bool.and_eq_true] at hw
-    simp [Ent.rendered, sel, hp, procOff, leaf_kids cfg false false D i.kind hc hf he cs hw.2]
+    simp only [outside, hp, Bool.false_and, Bool.false_eq_true, if_false, procOff] at ho
+    have hk := leaf_kids cfg D i.kind hc hf cs hw.2 ho
+    have hnm : (i.kind == Kind.namelist && !nmlSection pk) = false := by
+      cases h : (i.kind == Kind.namelist)
+      · simp
+      · have := hn (by simpa using h)
+        simp [this]
+    simp [Ent.rendered, sel, hp, procOff, hk, hnm]
 
-/-- dummy arguments are never removed by a `prune` -/
+/-- dummy arguments and results are never removed by a `prune` -/
 theorem argIds_pruneKids (cfg : Cfg) (cl : PClass) (off : Bool) (d : List Word) :
     (cs : Ents) → (pruneKids cfg cl off d cs).argIds = cs.argIds
   | .nil => by simp [pruneKids]
   | .cons e rest => by
     have ih := argIds_pruneKids cfg cl off d rest
-    by_cases ha : e.info.kind = .arg
-    · have h1 := (tbl_args_kept cl).1
-      have h2 := (tbl_args_kept cl).2
-      have hr : recurseIn cl "args" = false := by cases cl <;> decide
-      have hv : visibleOnlyIn cl "args" = false := by cases cl <;> decide
-      simp [pruneKids, ha, listOf, h1, h2, hr, hv, Ents.argIds, ih]
+    cases ha : isArgLike e.info.kind
     · simp only [pruneKids]
       split
       · split <;> simp [Ents.argIds, ha, ih]
@@ -127,6 +176,8 @@ theorem argIds_pruneKids (cfg : Cfg) (cl : PClass) (off : Bool) (d : List Word) 
         · split
           · simp [Ents.argIds, ha, ih, setVisible_info_kind, prune_info]
           · split <;> simp [Ents.argIds, ha, ih, setVisible_info_kind]
+    · obtain ⟨h1, h2, h3, h4⟩ := tbl_arglike_kept cl e.info.kind ha
+      simp [pruneKids, ha, h1, h2, h3, h4, Ents.argIds, ih]
 
 theorem shouldDisplay_agree (cfg : Cfg) (d : List Word) (D : Word → Bool) (i : Info)
     (h : Agree d D) (hp : isPerm i.perm = true) :
@@ -135,93 +186,138 @@ theorem shouldDisplay_agree (cfg : Cfg) (d : List Word) (D : Word → Bool) (i :
   rw [h _ hp]
   cases cfg.hideUndoc <;> cases i.doc <;> simp
 
-theorem noEnum_kind (e : Ent) (h : noEnum e = true) : e.info.kind ≠ .enum := by
-  cases e with
-  | mk i cs =>
-    simp only [noEnum, Bool.and_eq_true, bne_iff_ne] at h
-    exact h.1
-
 theorem wf_perm (e : Ent) (h : wf e = true) : isPerm e.info.perm = true := by
   cases e with
   | mk i cs =>
     simp only [wf, Bool.and_eq_true] at h
     exact h.1
 
+theorem tbl_noAccess_gap : ∀ k : Kind, gapKind k = false → noAccess k = false := by
+  intro k; cases k <;> decide
+
 /-! ### the main simulation: rendering the pruned tree = the selected set -/
 
 mutual
-theorem rendered_prune (cfg : Cfg) (d : List Word) (D : Word → Bool) (pproc : Bool) (hA : Agree d D) :
-    (e : Ent) → wf e = true → noEnum e = true → classOf e.info.kind ≠ .none →
-    (prune cfg d e).rendered pproc = sel cfg pproc D e
-  | .mk i cs, hw, hn, hc => by
+theorem rendered_prune (cfg : Cfg) (d : List Word) (D : Word → Bool) (pk : Kind) (hA : Agree d D) :
+    (e : Ent) → wf e = true → outside cfg pk D e = true → classOf e.info.kind ≠ .none →
+    (prune cfg d e).rendered pk = sel cfg pk D e
+  | .mk i cs, hw, ho, hc => by
     simp only [wf, Bool.and_eq_true] at hw
-    simp only [noEnum, Bool.and_eq_true] at hn
     simp only [Ent.info] at hc
     have hoff : internalsOff cfg i = true → isProc i.kind = true := by
       intro h; simp [internalsOff] at h; exact h.1
-    have ih := rendered_pruneKids cfg d D hA i.kind (internalsOff cfg i) hc hoff cs hw.2 hn.2
-    simp only [prune, Ent.rendered, sel]
-    by_cases hb : (isProc i.kind && pproc) = true
+    have hnml := tbl_class_not_nml i.kind hc
+    simp only [prune, Ent.rendered, sel, hnml, Bool.false_and, Bool.false_eq_true, if_false, tbl_summary]
+    by_cases hb : (isProc i.kind && summarised pk) = true
     · simp [hb, argIds_pruneKids]
-    · simp only [hb]
-      simp only [Bool.false_eq_true, if_false]
+    · simp only [outside, hb, if_false, Bool.false_eq_true] at ho
+      have ih := rendered_pruneKids cfg d D hA i.kind (internalsOff cfg i) hc hoff cs hw.2 ho
+      simp only [hb, Bool.false_eq_true, if_false]
       rw [ih]
       rfl
 theorem rendered_pruneKids (cfg : Cfg) (d : List Word) (D : Word → Bool) (hA : Agree d D)
     (pk : Kind) (off : Bool) (hc : classOf pk ≠ .none) (hoff : off = true → isProc pk = true) :
-    (cs : Ents) → wfKids pk cs = true → noEnumKids cs = true →
-    (pruneKids cfg (classOf pk) off d cs).rendered (isProc pk) = selKids cfg (isProc pk) off D cs
+    (cs : Ents) → wfKids pk cs = true → outsideKids cfg pk off D cs = true →
+    (pruneKids cfg (classOf pk) off d cs).rendered pk = selKids cfg pk off D cs
   | .nil, _, _ => by simp [pruneKids, Ents.rendered, selKids]
-  | .cons e rest, hw, hn => by
+  | .cons e rest, hw, ho => by
     simp only [wfKids, Bool.and_eq_true] at hw
     obtain ⟨⟨hk, hwe⟩, hwr⟩ := hw
-    simp only [noEnumKids, Bool.and_eq_true] at hn
-    obtain ⟨hne, hnr⟩ := hn
-    have ih := rendered_pruneKids cfg d D hA pk off hc hoff rest hwr hnr
-    have hen : e.info.kind ≠ .enum := noEnum_kind e hne
-    have hperm := wf_perm e hwe
-    have hsd := shouldDisplay_agree cfg d D e.info hA hperm
-    have hfil := tbl_filtered pk e.info.kind hk hen hc
-    have hrec := tbl_recurse pk e.info.kind hk hen hc
-    have hA' := agree_setDisplay false d D e.info.disp hA
-    simp only [pruneKids, selKids]
-    cases off
-    · -- internals shown
-      simp only [Bool.false_eq_true, if_false, hfil, hsd, Bool.not_false, Bool.true_and]
-      cases hal : alwaysShown e.info.kind
-      · -- filterable kind
-        simp only [Bool.not_false, Bool.true_and, Bool.false_or]
-        cases hshow : (D e.info.perm && (!cfg.hideUndoc || e.info.doc))
+    simp only [outsideKids, Bool.and_eq_true] at ho
+    obtain ⟨⟨ho1, ho2⟩, ho3⟩ := ho
+    have ih := rendered_pruneKids cfg d D hA pk off hc hoff rest hwr ho3
+    have hpf : pk ≠ .file := by
+      intro h; rw [h] at hc; exact hc rfl
+    have hnf : e.info.kind ≠ .file := tbl_kid_not_file pk e.info.kind hk hpf
+    have hunf := tbl_unfiltered_scope pk e.info.kind hc
+    rw [hunf] at ho1
+    cases hg : gapKind e.info.kind
+    · -- a kind the `prune()` methods know
+      have hperm := wf_perm e hwe
+      have hsd := shouldDisplay_agree cfg d D e.info hA hperm
+      have hfil := tbl_filtered pk e.info.kind hk hg hc
+      have hrec := tbl_recurse pk e.info.kind hk hg hc
+      have hA' := agree_setDisplay false d D e.info.disp hA
+      have hna := tbl_noAccess_gap _ hg
+      simp only [pruneKids, selKids, selects, hna, Bool.false_or]
+      cases off
+      · -- internals shown
+        simp only [Bool.false_eq_true, if_false, hfil, hsd, Bool.not_false, Bool.true_and]
+        cases hal : ownDescr pk e.info.kind
+        · -- filterable kind
+          simp only [Bool.not_false, Bool.true_and, Bool.false_or]
+          cases hshow : (D e.info.perm && (!cfg.hideUndoc || e.info.doc))
+          · simp [ih]
+          · have hsel : selects cfg pk false D e.info = true := by
+              simp only [selects, hna, hal, Bool.false_or, Bool.not_false, Bool.true_and]; exact hshow
+            have hoe := ho2
+            simp only [hsel, if_true] at hoe
+            simp only [Bool.not_true, Bool.false_eq_true, if_false, if_true, hrec]
+            cases hcl : (classOf e.info.kind != PClass.none)
+            · -- kept whole
+              have hcn : classOf e.info.kind = .none := by simpa using hcl
+              have hnn : e.info.kind = .namelist → nmlSection pk = true := by
+                intro h; rw [h] at hg; exact absurd hg (by decide)
+              have hl := leaf_ent cfg pk (inForce false D e.info.disp) e hwe hcn hnf hnn hoe
+              simp only [Bool.false_eq_true, if_false]
+              split <;> simp [Ents.rendered, setVisible_rendered, hl, ih]
+            · have hcn : classOf e.info.kind ≠ .none := by simpa using hcl
+              have hr := rendered_prune cfg (setDisplay false d e.info.disp) (inForce false D e.info.disp)
+                pk hA' e hwe hoe hcn
+              simp [Ents.rendered, setVisible_rendered, hr, ih]
+        · -- part of the parent's own description: never filtered, never recursed into
+          obtain ⟨hcn, _, hnn'⟩ := tbl_own_leaf pk e.info.kind hk hc hal
+          have hsel : selects cfg pk false D e.info = true := by simp [selects, hal]
+          have hoe := ho2
+          simp only [hsel, if_true] at hoe
+          have hnn : e.info.kind = .namelist → nmlSection pk = true := fun h => absurd h hnn'
+          have hl := leaf_ent cfg pk (inForce false D e.info.disp) e hwe hcn hnf hnn hoe
+          simp only [Bool.not_true, Bool.false_and, Bool.false_eq_true, if_false, Bool.true_or, if_true, hrec, hcn]
+          simp only [bne_self_eq_false, Bool.false_eq_true, if_false]
+          split <;> simp [Ents.rendered, setVisible_rendered, hl, ih]
+      · -- internals off: the parent is a procedure
+        have hproc := hoff rfl
+        have hemp := tbl_emptied pk e.info.kind hk hg hproc
+        simp only [if_true, hemp]
+        cases hal : ownDescr pk e.info.kind
         · simp [ih]
-        · simp only [Bool.not_true, Bool.false_eq_true, if_false, if_true, hrec]
-          cases hcl : (classOf e.info.kind != PClass.none)
-          · -- kept whole
-            have hcn : classOf e.info.kind = .none := by simpa using hcl
-            have hpf : pk ≠ .file := by
-              intro h; rw [h] at hc; exact hc rfl
-            have hnf : e.info.kind ≠ .file := tbl_kid_not_file pk e.info.kind hk hpf
-            have hl := leaf_ent cfg (isProc pk) (inForce false D e.info.disp) e hwe hcn hnf hen
-            simp only [Bool.false_eq_true, if_false]
-            split <;> simp [Ents.rendered, setVisible_rendered, hl, ih]
-          · have hcn : classOf e.info.kind ≠ .none := by simpa using hcl
-            have hr := rendered_prune cfg (setDisplay false d e.info.disp) (inForce false D e.info.disp)
-              (isProc pk) hA' e hwe hne hcn
-            simp [Ents.rendered, setVisible_rendered, hr, ih]
-      · -- always shown: never filtered, never recursed into
-        obtain ⟨hcn, hnf, _⟩ := tbl_always_leaf _ hal
-        have hl := leaf_ent cfg (isProc pk) (inForce false D e.info.disp) e hwe hcn hnf hen
-        simp only [Bool.not_true, Bool.false_and, Bool.false_eq_true, if_false, Bool.true_or, if_true, hrec, hcn]
-        simp only [bne_self_eq_false, Bool.false_eq_true, if_false]
-        split <;> simp [Ents.rendered, setVisible_rendered, hl, ih]
-    · -- internals off: the parent is a procedure
-      have hproc := hoff rfl
-      have hemp := tbl_emptied pk e.info.kind hk hen hproc
-      simp only [if_true, hemp]
-      cases hal : alwaysShown e.info.kind
-      · simp [ih]
-      · obtain ⟨hcn, hnf, _⟩ := tbl_always_leaf _ hal
-        have hl := leaf_ent cfg (isProc pk) (inForce false D e.info.disp) e hwe hcn hnf hen
-        simp [Ents.rendered, hl, ih]
+        · obtain ⟨hcn, _, hnn'⟩ := tbl_own_leaf pk e.info.kind hk hc hal
+          have hsel : selects cfg pk true D e.info = true := by simp [selects, hal]
+          have hoe := ho2
+          simp only [hsel, if_true] at hoe
+          have hnn : e.info.kind = .namelist → nmlSection pk = true := fun h => absurd h hnn'
+          have hl := leaf_ent cfg pk (inForce false D e.info.disp) e hwe hcn hnf hnn hoe
+          simp [Ents.rendered, hl, ih]
+    · -- enumeration / namelist / common block: no `prune()` touches the list
+      obtain ⟨h1, h2, h3, h4⟩ := tbl_gap_untouched pk e.info.kind hk hg
+      obtain ⟨hcn, _, _⟩ := tbl_gap_leaf _ hg
+      have hkeep : pruneKids cfg (classOf pk) off d (.cons e rest) = .cons e (pruneKids cfg (classOf pk) off d rest) := by
+        cases off <;> simp [pruneKids, h1, h2, h3, h4]
+      rw [hkeep]
+      simp only [hg, if_true, beq_iff_eq] at ho1
+      simp only [Ents.rendered, selKids, ih]
+      cases hsel : selects cfg pk off D e.info
+      · -- not selected: it must be a namelist that no template of the parent renders
+        rw [hsel] at ho1
+        have hx : (e.info.kind != Kind.namelist || namelistDescribed pk) = false := ho1.symm
+        simp only [Bool.or_eq_false_iff, bne_eq_false_iff_eq] at hx
+        have hkn : kidOk pk .namelist = true := by rw [← hx.1]; exact hk
+        have hns : nmlSection pk = false := by rw [tbl_nml_section pk hkn]; exact hx.2
+        cases e with
+        | mk i ks =>
+          simp only [Ent.info] at hx
+          simp [Ent.rendered, hx.1, hns]
+      · rw [hsel] at ho1
+        have hoe := ho2
+        simp only [hsel, if_true] at hoe
+        have hnn : e.info.kind = .namelist → nmlSection pk = true := by
+          intro h
+          have hkn : kidOk pk .namelist = true := by rw [← h]; exact hk
+          rw [tbl_nml_section pk hkn]
+          have := ho1.symm
+          simpa [h] using this
+        have hl := leaf_ent cfg pk (inForce false D e.info.disp) e hwe hcn hnf hnn hoe
+        simp [hl]
 end
 
 end Ford.Display
@@ -235,16 +331,16 @@ theorem tbl_unit_class : ∀ k : Kind, kidOk .file k = true → classOf k ≠ .n
   intro k; cases k <;> decide
 
 theorem rendered_pruneUnits (cfg : Cfg) (d : List Word) (D : Word → Bool) (hA : Agree d D) :
-    (cs : Ents) → wfKids .file cs = true → noEnumKids cs = true →
-    (pruneUnits cfg d cs).rendered false = selUnits cfg D cs
+    (cs : Ents) → wfKids .file cs = true → outsideUnits cfg D cs = true →
+    (pruneUnits cfg d cs).rendered .file = selUnits cfg D cs
   | .nil, _, _ => by simp [pruneUnits, Ents.rendered, selUnits]
-  | .cons u rest, hw, hn => by
+  | .cons u rest, hw, ho => by
     simp only [wfKids, Bool.and_eq_true] at hw
     obtain ⟨⟨hk, hwu⟩, hwr⟩ := hw
-    simp only [noEnumKids, Bool.and_eq_true] at hn
-    have ih := rendered_pruneUnits cfg d D hA rest hwr hn.2
-    have hr := rendered_prune cfg (setDisplay false d u.info.disp) (inForce false D u.info.disp) false
-      (agree_setDisplay false d D u.info.disp hA) u hwu hn.1 (tbl_unit_class _ hk)
+    simp only [outsideUnits, Bool.and_eq_true] at ho
+    have ih := rendered_pruneUnits cfg d D hA rest hwr ho.2
+    have hr := rendered_prune cfg (setDisplay false d u.info.disp) (inForce false D u.info.disp) .file
+      (agree_setDisplay false d D u.info.disp hA) u hwu ho.1 (tbl_unit_class _ hk)
     simp [pruneUnits, Ents.rendered, selUnits, setVisible_rendered, hr, ih]
 
 theorem inForce_file_nothing (D : Word → Bool) (md : List Word)
@@ -267,22 +363,25 @@ theorem agree_fileChild (cfg : Cfg) (i : Info) (hc : cfgOk cfg = true)
     exact agree_project cfg hc
 
 theorem rendered_pruneFile (cfg : Cfg) (hc : cfgOk cfg = true) (f : Ent) (hw : wfFile f = true)
+    (ho : outsideFile cfg f = true)
     (h : cfg.fileInherits = true ∨ saysSomething (f.info.disp.filter (fun w => w != Word.none)) = false) :
-    (pruneFile cfg f).rendered false = selFile cfg f := by
+    (pruneFile cfg f).rendered .file = selFile cfg f := by
   cases f with
   | mk i cs =>
     simp only [wfFile, Bool.and_eq_true, beq_iff_eq] at hw
-    obtain ⟨⟨hk, hwk⟩, hn⟩ := hw
+    obtain ⟨hk, hwk⟩ := hw
     have hA := agree_fileChild cfg i hc h
-    have hu := rendered_pruneUnits cfg _ _ hA cs hwk hn
+    have hu := rendered_pruneUnits cfg _ _ hA cs hwk ho
     simp [pruneFile, Ent.rendered, selFile, hk, isProc, hu]
 
 theorem rendered_pruneProject (cfg : Cfg) (hc : cfgOk cfg = true) :
-    (p : List Ent) → wfProject p = true → (cfg.fileInherits = true ∨ noFileDisplay p = true) →
+    (p : List Ent) → wfProject p = true → outsideFindings cfg p = true →
+    (cfg.fileInherits = true ∨ noFileDisplay p = true) →
     renderedOf (pruneProject cfg p) = selProject cfg p
-  | [], _, _ => by simp [pruneProject, renderedOf, selProject]
-  | f :: fs, hw, h => by
+  | [], _, _, _ => by simp [pruneProject, renderedOf, selProject]
+  | f :: fs, hw, ho, h => by
     simp only [wfProject, Bool.and_eq_true] at hw
+    simp only [outsideFindings, Bool.and_eq_true] at ho
     have h1 : cfg.fileInherits = true ∨ saysSomething (f.info.disp.filter (fun w => w != Word.none)) = false := by
       cases h with
       | inl h => exact Or.inl h
@@ -291,8 +390,55 @@ theorem rendered_pruneProject (cfg : Cfg) (hc : cfgOk cfg = true) :
       cases h with
       | inl h => exact Or.inl h
       | inr h => simp only [noFileDisplay, Bool.and_eq_true] at h; exact Or.inr h.2
-    simp [pruneProject, renderedOf, selProject, rendered_pruneFile cfg hc f hw.1 h1,
-      rendered_pruneProject cfg hc fs hw.2 h2]
+    simp [pruneProject, renderedOf, selProject, rendered_pruneFile cfg hc f hw.1 ho.1 h1,
+      rendered_pruneProject cfg hc fs hw.2 ho.2 h2]
+
+/-! ### a project without enumerations, namelists and common blocks meets no never-filtered position -/
+
+theorem tbl_unfiltered_noGap : ∀ pk ck : Kind, gapKind pk = false → gapKind ck = false → unfiltered pk ck = false := by
+  intro pk ck; cases pk <;> cases ck <;> decide
+
+mutual
+theorem outside_of_noGap (cfg : Cfg) (pk : Kind) (D : Word → Bool) :
+    (e : Ent) → noGap e = true → outside cfg pk D e = true
+  | .mk i cs, h => by
+    simp only [noGap, Bool.and_eq_true, Bool.not_eq_true'] at h
+    simp only [outside]
+    split
+    · rfl
+    · exact outsideKids_of_noGap cfg i.kind (procOff cfg i) D h.1 cs h.2
+theorem outsideKids_of_noGap (cfg : Cfg) (pk : Kind) (off : Bool) (D : Word → Bool) (hp : gapKind pk = false) :
+    (cs : Ents) → noGapKids cs = true → outsideKids cfg pk off D cs = true
+  | .nil, _ => by simp [outsideKids]
+  | .cons (.mk i ks) rest, h => by
+    simp only [noGapKids, Bool.and_eq_true] at h
+    have hi := h.1
+    simp only [noGap, Bool.and_eq_true, Bool.not_eq_true'] at hi
+    have h1 := outside_of_noGap cfg pk (inForce false D i.disp) (.mk i ks) h.1
+    have h2 := outsideKids_of_noGap cfg pk off D hp rest h.2
+    have hu := tbl_unfiltered_noGap pk i.kind hp hi.1
+    simp only [outsideKids, Ent.info, hu, Bool.false_eq_true, if_false, Bool.true_and, h2, Bool.and_true, h1]
+    simp
+end
+
+theorem outsideUnits_of_noGap (cfg : Cfg) (D : Word → Bool) :
+    (us : Ents) → noGapKids us = true → outsideUnits cfg D us = true
+  | .nil, _ => rfl
+  | .cons u rest, hu => by
+    simp only [noGapKids, Bool.and_eq_true] at hu
+    simp [outsideUnits, outside_of_noGap cfg .file _ u hu.1, outsideUnits_of_noGap cfg D rest hu.2]
+
+theorem outsideFindings_of_noGapKinds (cfg : Cfg) :
+    (p : List Ent) → wfProject p = true → noGapKinds p = true → outsideFindings cfg p = true
+  | [], _, _ => rfl
+  | (.mk i cs) :: fs, hw, h => by
+    simp only [noGapKinds, Bool.and_eq_true] at h
+    simp only [wfProject, Bool.and_eq_true] at hw
+    have ih := outsideFindings_of_noGapKinds cfg fs hw.2 h.2
+    have hf := h.1
+    simp only [noGap, Bool.and_eq_true, Bool.not_eq_true'] at hf
+    simp only [outsideFindings, outsideFile, ih, Bool.and_true]
+    exact outsideUnits_of_noGap cfg _ cs hf.2
 
 end Ford.Display
 
@@ -308,8 +454,9 @@ theorem tbl_containers : ∀ pk ck : Kind, kidOk .file pk = true → isUnitWithK
 theorem tbl_chain : ∀ pk : Kind, kidOk .file pk = true → inChain (listOf pk) = isUnitWithKids pk := by
   intro pk; cases pk <;> decide
 
-theorem tbl_page_not_always : ∀ k : Kind, pageKind k = true → alwaysShown k = false := by
-  intro k; cases k <;> decide
+theorem tbl_page_not_always : ∀ pk ck : Kind, pageKind ck = true → isUnitWithKids pk = true →
+    ownDescr pk ck = false ∧ gapKind ck = false := by
+  intro pk ck; cases pk <;> cases ck <;> decide
 
 theorem tbl_unit_not_proc : ∀ k : Kind, isUnitWithKids k = true → isProc k = false ∧ classOf k ≠ .none := by
   intro k; cases k <;> decide
@@ -322,20 +469,17 @@ theorem prune_kids (cfg : Cfg) (d : List Word) (e : Ent) :
 
 theorem pageKids_pruneKids (cfg : Cfg) (d : List Word) (D : Word → Bool) (hA : Agree d D) (pk : Kind)
     (hu : kidOk .file pk = true) (hk : isUnitWithKids pk = true) :
-    (cs : Ents) → wfKids pk cs = true → noEnumKids cs = true →
+    (cs : Ents) → wfKids pk cs = true →
     (pruneKids cfg (classOf pk) false d cs).pageKids = selPageKids cfg D cs
-  | .nil, _, _ => by simp [pruneKids, Ents.pageKids, selPageKids]
-  | .cons e rest, hw, hn => by
+  | .nil, _ => by simp [pruneKids, Ents.pageKids, selPageKids]
+  | .cons e rest, hw => by
     simp only [wfKids, Bool.and_eq_true] at hw
     obtain ⟨⟨hke, hwe⟩, hwr⟩ := hw
-    simp only [noEnumKids, Bool.and_eq_true] at hn
-    have ih := pageKids_pruneKids cfg d D hA pk hu hk rest hwr hn.2
-    have hen := noEnum_kind e hn.1
+    have ih := pageKids_pruneKids cfg d D hA pk hu hk rest hwr
     have hc := (tbl_unit_not_proc pk hk).2
     have hsd := shouldDisplay_agree cfg d D e.info hA (wf_perm e hwe)
-    have hfil := tbl_filtered pk e.info.kind hke hen hc
     have hcont := tbl_containers pk e.info.kind hu hk hke
-    simp only [pruneKids, selPageKids, Bool.false_eq_true, if_false, hfil, hsd]
+    simp only [pruneKids, selPageKids, Bool.false_eq_true, if_false, hsd]
     cases hpg : pageKind e.info.kind
     · -- not a page kind: contributes nothing whichever branch is taken
       simp only [Bool.false_and, Bool.false_eq_true, if_false, List.nil_append]
@@ -344,8 +488,9 @@ theorem pageKids_pruneKids (cfg : Cfg) (d : List Word) (D : Word → Bool) (hA :
       · split
         · simp [Ents.pageKids, setVisible_info_kind, prune_info, hcont, hpg, ih]
         · split <;> simp [Ents.pageKids, setVisible_info_kind, hcont, hpg, ih]
-    · have hal := tbl_page_not_always _ hpg
-      simp only [hal, Bool.not_false, Bool.true_and]
+    · obtain ⟨hal, hg⟩ := tbl_page_not_always pk _ hpg hk
+      have hfil := tbl_filtered pk e.info.kind hke hg hc
+      simp only [hfil, hal, Bool.not_false, Bool.true_and]
       cases hshow : (D e.info.perm && (!cfg.hideUndoc || e.info.doc))
       · simp [ih]
       · simp only [Bool.not_true, Bool.false_eq_true, if_false, if_true]
@@ -354,14 +499,13 @@ theorem pageKids_pruneKids (cfg : Cfg) (d : List Word) (D : Word → Bool) (hA :
         · split <;> simp [Ents.pageKids, setVisible_info_kind, setVisible_info_id, hcont, hpg, ih]
 
 theorem unitPages_pruneUnits (cfg : Cfg) (d : List Word) (D : Word → Bool) (hA : Agree d D) :
-    (cs : Ents) → wfKids .file cs = true → noEnumKids cs = true →
+    (cs : Ents) → wfKids .file cs = true →
     (pruneUnits cfg d cs).unitPages = selUnitPages cfg D cs
-  | .nil, _, _ => by simp [pruneUnits, Ents.unitPages, selUnitPages]
-  | .cons u rest, hw, hn => by
+  | .nil, _ => by simp [pruneUnits, Ents.unitPages, selUnitPages]
+  | .cons u rest, hw => by
     simp only [wfKids, Bool.and_eq_true] at hw
     obtain ⟨⟨hk, hwu⟩, hwr⟩ := hw
-    simp only [noEnumKids, Bool.and_eq_true] at hn
-    have ih := unitPages_pruneUnits cfg d D hA rest hwr hn.2
+    have ih := unitPages_pruneUnits cfg d D hA rest hwr
     have hch := tbl_chain u.info.kind hk
     simp only [pruneUnits, Ents.unitPages, selUnitPages, setVisible_info_kind, setVisible_info_id, prune_info,
       setVisible_kids, prune_kids, hch, ih]
@@ -372,11 +516,8 @@ theorem unitPages_pruneUnits (cfg : Cfg) (d : List Word) (D : Word → Bool) (hA
       have hwk : wfKids u.info.kind u.kids = true := by
         cases u with
         | mk i cs => simp only [wf, Bool.and_eq_true] at hwu; exact hwu.2
-      have hnk : noEnumKids u.kids = true := by
-        cases u with
-        | mk i cs => simp only [noEnum, Bool.and_eq_true] at hn; exact hn.1.2
       have hp := pageKids_pruneKids cfg (setDisplay false d u.info.disp) (inForce false D u.info.disp)
-        (agree_setDisplay false d D u.info.disp hA) u.info.kind hk hun u.kids hwk hnk
+        (agree_setDisplay false d D u.info.disp hA) u.info.kind hk hun u.kids hwk
       simp [hoff, hp]
 
 theorem pageIds_pruneProject (cfg : Cfg) (hc : cfgOk cfg = true) :
@@ -396,7 +537,7 @@ theorem pageIds_pruneProject (cfg : Cfg) (hc : cfgOk cfg = true) :
     have hwf := hw.1
     simp only [wfFile, Bool.and_eq_true, beq_iff_eq] at hwf
     have hA := agree_fileChild cfg i hc h1
-    have hu := unitPages_pruneUnits cfg _ _ hA cs hwf.1.2 hwf.2
+    have hu := unitPages_pruneUnits cfg _ _ hA cs hwf.2
     simp [pruneProject, pruneFile, pageIds, selPages, selFilePages, Ent.info, Ent.kids, hu,
       pageIds_pruneProject cfg hc fs hw.2 h2]
 
@@ -514,7 +655,7 @@ theorem pageIds_visible (cfg : Cfg) (x : Nat) :
     have hwf := hw.1
     simp only [wfFile, Bool.and_eq_true, beq_iff_eq] at hwf
     have ih := pageIds_visible cfg x fs hw.2
-    have hu := unitPages_visible cfg (fileChildDisplay cfg i) x cs hwf.1.2
+    have hu := unitPages_visible cfg (fileChildDisplay cfg i) x cs hwf.2
     intro hx
     simp only [pruneProject, pruneFile, pageIds, Ent.info, Ent.kids, List.mem_append, List.mem_cons] at hx
     simp only [pruneProject, pruneFile, visibleIdsOf, Ent.visibleIds, List.mem_append]
@@ -522,5 +663,703 @@ theorem pageIds_visible (cfg : Cfg) (x : Nat) :
     · left; left; simp [hx]
     · left; right; exact hu hx
     · right; exact ih hx
+
+end Ford.Display
+
+namespace Ford.Display
+open Ford.Display.Spec Ford.Generated
+
+/-! ### namelist pages: every selected namelist that should have a page has one -/
+
+theorem tbl_routines : ∀ k : Kind, isProc k = true → C05.routinesLists.contains (listOf k) = true := by
+  intro k; cases k <;> decide
+
+theorem tbl_collect : ∀ k : Kind, kidOk .file k = true →
+    (isProc k = true → C05.namelistCollect.lookup (listOf k) = some (true, false))
+    ∧ (k = .program → C05.namelistCollect.lookup (listOf k) = some (true, true))
+    ∧ ((k = .module ∨ k = .submodule) → C05.namelistCollect.lookup (listOf k) = some (false, true)) := by
+  intro k; cases k <;> decide
+
+theorem mem_selNmlKids (cfg : Cfg) (pk : Kind) (off : Bool) (D : Word → Bool) (x : Nat) :
+    (cs : Ents) → x ∈ selNmlKids cfg pk off D cs → x ∈ cs.nmlKids.map (·.info.id)
+  | .nil => by simp [selNmlKids]
+  | .cons c rest => by
+    have ih := mem_selNmlKids cfg pk off D x rest
+    intro hx
+    simp only [selNmlKids, List.mem_append] at hx
+    simp only [Ents.nmlKids, List.map_append, List.mem_append]
+    rcases hx with hx | hx
+    · left
+      split at hx
+      · rename_i h
+        simp only [Bool.and_eq_true, beq_iff_eq] at h
+        simp only [List.mem_singleton] at hx
+        simp [h.1, hx]
+      · simp at hx
+    · exact Or.inr (ih hx)
+
+theorem mem_selRoutineNmls (cfg : Cfg) (pk : Kind) (D : Word → Bool) (x : Nat) :
+    (cs : Ents) → x ∈ selRoutineNmls cfg pk D cs → x ∈ cs.routineNmls.map (·.info.id)
+  | .nil => by simp [selRoutineNmls]
+  | .cons c rest => by
+    have ih := mem_selRoutineNmls cfg pk D x rest
+    intro hx
+    simp only [selRoutineNmls, List.mem_append] at hx
+    simp only [Ents.routineNmls, List.map_append, List.mem_append]
+    rcases hx with hx | hx
+    · left
+      split at hx
+      · rename_i h
+        simp only [Bool.and_eq_true] at h
+        simp only [tbl_routines _ h.1, if_true]
+        exact mem_selNmlKids cfg _ _ _ x _ hx
+      · simp at hx
+    · exact Or.inr (ih hx)
+
+theorem mem_selUnitNmls (cfg : Cfg) (D : Word → Bool) (x : Nat) :
+    (us : Ents) → wfKids .file us = true → x ∈ selUnitNmls cfg D us → x ∈ us.unitNmls.map (·.info.id)
+  | .nil, _ => by simp [selUnitNmls]
+  | .cons u rest, hw => by
+    simp only [wfKids, Bool.and_eq_true] at hw
+    obtain ⟨⟨hk, _⟩, hwr⟩ := hw
+    have ih := mem_selUnitNmls cfg D x rest hwr
+    obtain ⟨t1, t2, t3⟩ := tbl_collect u.info.kind hk
+    intro hx
+    simp only [selUnitNmls, List.mem_append] at hx
+    simp only [Ents.unitNmls, List.map_append, List.mem_append]
+    rcases hx with hx | hx
+    · left
+      split at hx
+      · rename_i h
+        rw [t1 h]
+        simp only [if_true, Bool.false_eq_true, if_false, List.append_nil]
+        exact mem_selNmlKids cfg _ _ _ x _ hx
+      · split at hx
+        · rename_i h
+          simp only [beq_iff_eq] at h
+          rw [t2 h]
+          simp only [if_true, List.map_append, List.mem_append]
+          simp only [List.mem_append] at hx
+          rcases hx with hx | hx
+          · exact Or.inl (mem_selNmlKids cfg _ _ _ x _ hx)
+          · exact Or.inr (mem_selRoutineNmls cfg _ _ x _ hx)
+        · split at hx
+          · rename_i h
+            simp only [Bool.or_eq_true, beq_iff_eq] at h
+            rw [t3 h]
+            simp only [Bool.false_eq_true, if_false, if_true, List.nil_append]
+            exact mem_selRoutineNmls cfg _ _ x _ hx
+          · simp at hx
+    · exact Or.inr (ih hx)
+
+theorem mem_selNmlPages (cfg : Cfg) (x : Nat) :
+    (p : List Ent) → wfProject p = true → x ∈ selNmlPages cfg p → x ∈ nmlPageIds p
+  | [], _ => by simp [selNmlPages]
+  | (.mk i cs) :: fs, hw => by
+    simp only [wfProject, Bool.and_eq_true] at hw
+    have hwf := hw.1
+    simp only [wfFile, Bool.and_eq_true, beq_iff_eq] at hwf
+    have ih := mem_selNmlPages cfg x fs hw.2
+    intro hx
+    simp only [selNmlPages, selFileNmls, List.mem_append] at hx
+    simp only [nmlPageIds, nmlEnts, Ent.kids, List.map_append, List.mem_append]
+    rcases hx with hx | hx
+    · exact Or.inl (mem_selUnitNmls cfg _ x cs hwf.2 hx)
+    · exact Or.inr (ih hx)
+
+end Ford.Display
+
+namespace Ford.Display
+open Ford.Display.Spec Ford.Generated
+
+/-! ### type extension: the tree with the inherited members is again a well-formed project -/
+
+theorem wfKids_append (pk : Kind) : (a b : Ents) → wfKids pk (a.append b) = (wfKids pk a && wfKids pk b)
+  | .nil, b => by simp [Ents.append, wfKids]
+  | .cons e r, b => by simp [Ents.append, wfKids, wfKids_append pk r b, Bool.and_assoc]
+
+theorem inheritable_append : (a b : Ents) → (a.append b).inheritable = a.inheritable.append b.inheritable
+  | .nil, b => by simp [Ents.append, Ents.inheritable]
+  | .cons e r, b => by
+    simp only [Ents.append, Ents.inheritable, inheritable_append r b]
+    split <;> simp [Ents.append]
+
+theorem tbl_inheritable_kid : ∀ k : Kind, (k == .variable || k == .boundproc) = true → kidOk .type k = true := by
+  intro k; cases k <;> decide
+
+theorem inheritable_kind (i : Info) (h : inheritable i = true) : (i.kind == .variable || i.kind == .boundproc) = true := by
+  simp only [inheritable, Bool.or_eq_true, Bool.and_eq_true] at h
+  rcases h with h | h
+  · simp [h.1]
+  · simp [h.1]
+
+/-- the inheritable members of any well-formed child list are well-formed members of a type -/
+theorem wfKids_type_inheritable (pk : Kind) : (cs : Ents) → wfKids pk cs = true → wfKids .type cs.inheritable = true
+  | .nil, _ => by simp [Ents.inheritable, wfKids]
+  | .cons e rest, h => by
+    simp only [wfKids, Bool.and_eq_true] at h
+    have ih := wfKids_type_inheritable pk rest h.2
+    simp only [Ents.inheritable]
+    split
+    · rename_i hi
+      simp [wfKids, tbl_inheritable_kid _ (inheritable_kind _ hi), h.1.2, ih]
+    · exact ih
+
+mutual
+theorem wfKids_find (n : Nat) : (e : Ent) → wf e = true → (r : Ent) → e.find n = some r → wfKids r.info.kind r.kids = true
+  | .mk i cs, hw, r, hf => by
+    simp only [wf, Bool.and_eq_true] at hw
+    simp only [Ent.find] at hf
+    split at hf
+    · cases hf; exact hw.2
+    · exact wfKids_finds n i.kind cs hw.2 r hf
+theorem wfKids_finds (n : Nat) (pk : Kind) : (es : Ents) → wfKids pk es = true → (r : Ent) → es.find n = some r →
+    wfKids r.info.kind r.kids = true
+  | .nil, _, r, hf => by simp [Ents.find] at hf
+  | .cons e rest, hw, r, hf => by
+    simp only [wfKids, Bool.and_eq_true] at hw
+    simp only [Ents.find] at hf
+    split at hf
+    · rename_i r' h
+      cases hf
+      exact wfKids_find n e hw.1.2 r h
+    · exact wfKids_finds n pk rest hw.2 r hf
+end
+
+theorem wfKids_findIn (n : Nat) : (p : List Ent) → wfProject p = true → (r : Ent) → findIn n p = some r →
+    wfKids r.info.kind r.kids = true
+  | [], _, r, hf => by simp [findIn] at hf
+  | (.mk i cs) :: fs, hw, r, hf => by
+    simp only [wfProject, Bool.and_eq_true] at hw
+    have hwf := hw.1
+    simp only [wfFile, Bool.and_eq_true, beq_iff_eq] at hwf
+    simp only [findIn] at hf
+    split at hf
+    · rename_i r' h
+      cases hf
+      simp only [Ent.find] at h
+      split at h
+      · cases h; simp only [Ent.info, Ent.kids]; rw [hwf.1]; exact hwf.2
+      · exact wfKids_finds n .file cs hwf.2 r h
+    · exact wfKids_findIn n fs hw.2 r hf
+
+/-- what an extending type takes over from the type it extends are well-formed members of a type -/
+theorem wfKids_membersOf (p : List Ent) (hp : wfProject p = true) :
+    (fuel n : Nat) → wfKids .type (membersOf p fuel n).inheritable = true
+  | 0, _ => by simp [membersOf, Ents.inheritable, wfKids]
+  | fuel + 1, n => by
+    simp only [membersOf]
+    split
+    · rename_i i cs hf
+      have hcs := wfKids_findIn n p hp _ hf
+      simp only [Ent.info, Ent.kids] at hcs
+      rw [inheritable_append, wfKids_append, Bool.and_eq_true]
+      refine ⟨?_, wfKids_type_inheritable _ cs hcs⟩
+      split
+      · exact wfKids_type_inheritable _ _ (wfKids_membersOf p hp fuel _)
+      · simp [Ents.inheritable, wfKids]
+    · simp [Ents.inheritable, wfKids]
+
+theorem inherit_info (p : List Ent) (fuel : Nat) (e : Ent) : (e.inherit p fuel).info = e.info := by
+  cases e; simp [Ent.inherit, Ent.info]
+
+mutual
+theorem wf_inherit (p : List Ent) (hp : wfProject p = true) (fuel : Nat) :
+    (e : Ent) → wf e = true → wf (e.inherit p fuel) = true
+  | .mk i cs, hw => by
+    simp only [wf, Bool.and_eq_true] at hw
+    have ih := wfKids_inherit p hp fuel i.kind cs hw.2
+    simp only [Ent.inherit, wf, hw.1, Bool.true_and]
+    split
+    · rename_i m hk _
+      rw [wfKids_append, hk, Bool.and_eq_true]
+      exact ⟨wfKids_membersOf p hp fuel m, by rw [← hk]; exact ih⟩
+    · exact ih
+theorem wfKids_inherit (p : List Ent) (hp : wfProject p = true) (fuel : Nat) (pk : Kind) :
+    (es : Ents) → wfKids pk es = true → wfKids pk (es.inherit p fuel) = true
+  | .nil, _ => by simp [Ents.inherit, wfKids]
+  | .cons e rest, hw => by
+    simp only [wfKids, Bool.and_eq_true] at hw
+    simp [Ents.inherit, wfKids, inherit_info, hw.1.1, wf_inherit p hp fuel e hw.1.2,
+      wfKids_inherit p hp fuel pk rest hw.2]
+end
+
+theorem wfProject_inheritList (p : List Ent) (hp : wfProject p = true) (fuel : Nat) :
+    (fs : List Ent) → wfProject fs = true → wfProject (inheritList p fuel fs) = true
+  | [], _ => rfl
+  | (.mk i cs) :: fs, hw => by
+    simp only [wfProject, Bool.and_eq_true] at hw
+    have hwf := hw.1
+    simp only [wfFile, Bool.and_eq_true, beq_iff_eq] at hwf
+    have hk := wfKids_inherit p hp fuel .file cs hwf.2
+    simp [inheritList, wfProject, wfFile, Ent.inherit, hwf.1, hk, wfProject_inheritList p hp fuel fs hw.2]
+
+/-- the project as `correlate` leaves it (every extending type carries the members it inherits) is a
+    well-formed project -/
+theorem wfProject_inheritProject (p : List Ent) (hp : wfProject p = true) (fuel : Nat) :
+    wfProject (inheritProject p fuel) = true :=
+  wfProject_inheritList p hp fuel p hp
+
+theorem noFileDisplay_inheritList (p : List Ent) (fuel : Nat) :
+    (fs : List Ent) → noFileDisplay (inheritList p fuel fs) = noFileDisplay fs
+  | [] => rfl
+  | f :: fs => by simp [inheritList, noFileDisplay, inherit_info, noFileDisplay_inheritList p fuel fs]
+
+/-- the members of an extending type after `correlate`: the public components and the non-private
+    bindings of the type it extends (with what that type inherited itself), then its own -/
+theorem inherit_type_kids (p : List Ent) (fuel : Nat) (i : Info) (cs : Ents) (m : Nat)
+    (hk : i.kind = .type) (he : i.ext = some m) :
+    (Ent.inherit p fuel (.mk i cs)).kids = ((membersOf p fuel m).inheritable).append (cs.inherit p fuel) := by
+  simp [Ent.inherit, Ent.kids, hk, he]
+
+/-- `FortranType.prune` treats an inherited member like an own one: it stays (and becomes linkable)
+    iff the extending type's display list selects it -/
+theorem dtype_member_kept_iff (cfg : Cfg) (d : List Word) (c : Ent) (rest : Ents)
+    (hk : (c.info.kind == .variable || c.info.kind == .boundproc) = true) :
+    pruneKids cfg .dtype false d (.cons c rest) =
+      if shouldDisplay cfg d c.info then .cons c.setVisible (pruneKids cfg .dtype false d rest)
+      else pruneKids cfg .dtype false d rest := by
+  have h : listOf c.info.kind = "variables" ∨ listOf c.info.kind = "boundprocs" := by
+    simp only [Bool.or_eq_true, beq_iff_eq] at hk
+    rcases hk with h | h <;> simp [h, listOf]
+  have hf : filteredIn .dtype (listOf c.info.kind) = true := by rcases h with h | h <;> rw [h] <;> decide
+  have hr : recurseIn .dtype (listOf c.info.kind) = false := by rcases h with h | h <;> rw [h] <;> decide
+  have hv : visibleOnlyIn .dtype (listOf c.info.kind) = true := by rcases h with h | h <;> rw [h] <;> decide
+  simp only [pruneKids, Bool.false_eq_true, if_false, hf, hr, hv, Bool.true_and]
+  cases shouldDisplay cfg d c.info <;> simp
+
+end Ford.Display
+
+namespace Ford.Display
+open Ford.Display.Spec
+
+/-! ### without type extension `correlate` adds no member to any type -/
+
+mutual
+theorem inherit_noExt (p : List Ent) (fuel : Nat) : (e : Ent) → e.hasExt = false → e.inherit p fuel = e
+  | .mk i cs, h => by
+    simp only [Ent.hasExt, Bool.or_eq_false_iff] at h
+    have hn : i.ext = none := by
+      cases hx : i.ext
+      · rfl
+      · simp [hx] at h
+    simp only [Ent.inherit, hn, inherits_noExt p fuel cs h.2]
+    cases i.kind <;> rfl
+theorem inherits_noExt (p : List Ent) (fuel : Nat) : (es : Ents) → es.hasExt = false → es.inherit p fuel = es
+  | .nil, _ => rfl
+  | .cons e rest, h => by
+    simp only [Ents.hasExt, Bool.or_eq_false_iff] at h
+    simp [Ents.inherit, inherit_noExt p fuel e h.1, inherits_noExt p fuel rest h.2]
+end
+
+theorem inheritList_noExtension (p : List Ent) (fuel : Nat) :
+    (fs : List Ent) → noExtension fs = true → inheritList p fuel fs = fs
+  | [], _ => rfl
+  | f :: fs, h => by
+    simp only [noExtension, Bool.and_eq_true, Bool.not_eq_true'] at h
+    simp [inheritList, inherit_noExt p fuel f h.1, inheritList_noExtension p fuel fs h.2]
+
+end Ford.Display
+
+namespace Ford.Display
+open Ford.Display.Spec Ford.Generated
+
+/-! ### per page: whatever a page shows is shown by the site-level abstraction -/
+
+theorem tbl_arglike_not_nml : ∀ k : Kind, isArgLike k = true → (k == .namelist) = false ∧ isProc k = false := by
+  intro k; cases k <;> decide
+
+theorem mem_argIds_rendered (pk : Kind) (x : Nat) : (cs : Ents) → x ∈ cs.argIds → x ∈ cs.rendered pk
+  | .nil => by simp [Ents.argIds]
+  | .cons (.mk i ks) rest => by
+    intro h
+    simp only [Ents.argIds, Ent.info, List.mem_append] at h
+    simp only [Ents.rendered, List.mem_append]
+    rcases h with h | h
+    · left
+      cases ha : isArgLike i.kind
+      · simp [ha] at h
+      · obtain ⟨h1, h2⟩ := tbl_arglike_not_nml _ ha
+        simp only [ha, if_true, List.mem_singleton] at h
+        simp [Ent.rendered, h1, h]
+    · exact Or.inr (mem_argIds_rendered pk x rest h)
+
+theorem tbl_unit_not_summary : ∀ k : Kind, unitLike k = true → summaryIn k = false := by
+  intro k; cases k <;> decide
+
+theorem tbl_proc_not_nml : ∀ k : Kind, isProc k = true → (k == .namelist) = false := by
+  intro k; cases k <;> decide
+
+theorem mem_onUnitPage_rendered (uk : Kind) (hu : unitLike uk = true) (x : Nat) :
+    (cs : Ents) → x ∈ cs.onUnitPage uk → x ∈ cs.rendered uk
+  | .nil => by simp [Ents.onUnitPage]
+  | .cons (.mk i ks) rest => by
+    intro h
+    simp only [Ents.onUnitPage, Ent.info, Ent.kids, List.mem_append] at h
+    simp only [Ents.rendered, List.mem_append]
+    rcases h with h | h
+    · left
+      cases hp : isProc i.kind
+      · simpa [hp] using h
+      · simp only [hp, if_true] at h
+        simp only [Ent.rendered, tbl_proc_not_nml _ hp, hp, tbl_unit_not_summary _ hu, Bool.false_and,
+          Bool.and_false, Bool.false_eq_true, if_false]
+        simp only [List.mem_cons] at h ⊢
+        rcases h with h | h
+        · exact Or.inl h
+        · exact Or.inr (mem_argIds_rendered _ x ks h)
+    · exact Or.inr (mem_onUnitPage_rendered uk hu x rest h)
+
+mutual
+theorem mem_pageRefs_renderedRefs (b : Bool) (pk : Kind) (x : Nat) :
+    (e : Ent) → x ∈ e.pageRefs b pk → x ∈ e.renderedRefs pk
+  | .mk i cs => by
+    intro h
+    simp only [Ent.pageRefs] at h
+    simp only [Ent.renderedRefs]
+    split
+    · rename_i hn; simp [hn] at h
+    · rename_i hn
+      simp only [hn, if_false, List.mem_append, Bool.false_eq_true] at h
+      simp only [List.mem_append]
+      rcases h with h | h
+      · left
+        split at h
+        · simp at h
+        · exact h
+      · right
+        split at h
+        · simp at h
+        · rename_i hs
+          simp only [hs, if_false, Bool.false_eq_true]
+          exact mems_pageRefs_renderedRefs b i.kind x cs h
+theorem mems_pageRefs_renderedRefs (b : Bool) (pk : Kind) (x : Nat) :
+    (es : Ents) → x ∈ es.pageRefs b pk → x ∈ es.renderedRefs pk
+  | .nil => by simp [Ents.pageRefs]
+  | .cons e rest => by
+    intro h
+    simp only [Ents.pageRefs, List.mem_append] at h
+    simp only [Ents.renderedRefs, List.mem_append]
+    rcases h with h | h
+    · exact Or.inl (mem_pageRefs_renderedRefs b pk x e h)
+    · exact Or.inr (mems_pageRefs_renderedRefs b pk x rest h)
+end
+
+theorem mem_refsShown (orig : List Ent) (x : Nat) : (l : List Nat) → x ∈ refsShown orig l → ∃ r, r ∈ l ∧ x ∈ refShown orig r
+  | [] => by simp [refsShown]
+  | r :: rs => by
+    intro h
+    simp only [refsShown, List.mem_append] at h
+    rcases h with h | h
+    · exact ⟨r, by simp, h⟩
+    · obtain ⟨r', hr, hx⟩ := mem_refsShown orig x rs h
+      exact ⟨r', by simp [hr], hx⟩
+
+theorem refsShown_mem (orig : List Ent) (x r : Nat) : (l : List Nat) → r ∈ l → x ∈ refShown orig r → x ∈ refsShown orig l
+  | [] => by simp
+  | a :: rs => by
+    intro hr hx
+    simp only [refsShown, List.mem_append]
+    simp only [List.mem_cons] at hr
+    rcases hr with hr | hr
+    · left; rw [← hr]; exact hx
+    · exact Or.inr (refsShown_mem orig x r rs hr hx)
+
+theorem refsShown_mono (orig : List Ent) (x : Nat) (l l' : List Nat) (h : ∀ r, r ∈ l → r ∈ l')
+    (hx : x ∈ refsShown orig l) : x ∈ refsShown orig l' := by
+  obtain ⟨r, hr, hxr⟩ := mem_refsShown orig x l hx
+  exact refsShown_mem orig x r l' (h r hr) hxr
+
+theorem tbl_unit_kind : ∀ k : Kind, unitLike k = true → isProc k = false ∧ (k == .namelist) = false := by
+  intro k; cases k <;> decide
+
+theorem mem_unitPageRefs (uk : Kind) (hu : unitLike uk = true) (x : Nat) :
+    (cs : Ents) → x ∈ cs.unitPageRefs uk → x ∈ cs.renderedRefs uk
+  | .nil => by simp [Ents.unitPageRefs]
+  | .cons c rest => by
+    intro h
+    simp only [Ents.unitPageRefs, List.mem_append] at h
+    simp only [Ents.renderedRefs, List.mem_append]
+    rcases h with h | h
+    · left
+      cases hp : isProc c.info.kind
+      · simp only [hp, Bool.false_eq_true, if_false] at h
+        exact mem_pageRefs_renderedRefs false uk x c h
+      · simp [hp] at h
+    · exact Or.inr (mem_unitPageRefs uk hu x rest h)
+
+/-- what the page of `e` shows is rendered, or named by something rendered, at `e` -/
+theorem mem_pageShows (orig : List Ent) (pk : Kind) (x : Nat) :
+    (e : Ent) → x ∈ e.pageShows orig pk →
+    x ∈ e.rendered pk ∨ x ∈ refsShown orig (e.renderedRefs pk)
+  | .mk i cs => by
+    intro h
+    simp only [Ent.pageShows, Ent.info, Ent.kids] at h
+    cases hu : unitLike i.kind
+    · simp only [hu, Bool.false_eq_true, if_false, List.mem_append] at h
+      rcases h with h | h
+      · exact Or.inl h
+      · exact Or.inr (refsShown_mono orig x _ _ (fun r hr => mem_pageRefs_renderedRefs _ pk r _ hr) h)
+    · simp only [hu, if_true, List.mem_append] at h
+      obtain ⟨hnp, hnn⟩ := tbl_unit_kind _ hu
+      rcases h with h | h
+      · left
+        simp only [Ent.rendered, hnn, hnp, Bool.false_and, Bool.false_eq_true, if_false]
+        simp only [List.mem_cons] at h ⊢
+        rcases h with h | h
+        · exact Or.inl h
+        · exact Or.inr (mem_onUnitPage_rendered i.kind hu x cs h)
+      · right
+        refine refsShown_mono orig x _ _ ?_ h
+        intro r hr
+        simp only [Ent.renderedRefs, hnn, hnp, Bool.false_and, Bool.false_eq_true, if_false, List.mem_append]
+        exact Or.inr (mem_unitPageRefs i.kind hu r cs hr)
+
+theorem mem_memberPages (orig : List Ent) (uk : Kind) (pg : Nat) (ids : List Nat) (x : Nat) (hx : x ∈ ids) :
+    (cs : Ents) → (pg, ids) ∈ cs.memberPages orig uk →
+    x ∈ cs.rendered uk ∨ x ∈ refsShown orig (cs.renderedRefs uk)
+  | .nil => by simp [Ents.memberPages]
+  | .cons c rest => by
+    intro h
+    simp only [Ents.memberPages, List.mem_append] at h
+    simp only [Ents.rendered, Ents.renderedRefs, List.mem_append]
+    rcases h with h | h
+    · cases hc : inContainers (listOf c.info.kind)
+      · simp [hc] at h
+      · simp only [hc, if_true, List.mem_singleton, Prod.mk.injEq] at h
+        rw [h.2] at hx
+        rcases mem_pageShows orig uk x c hx with h1 | h1
+        · exact Or.inl (Or.inl h1)
+        · right
+          exact refsShown_mono orig x _ _ (fun r hr => by simp [hr]) h1
+    · rcases mem_memberPages orig uk pg ids x hx rest h with h1 | h1
+      · exact Or.inl (Or.inr h1)
+      · right
+        exact refsShown_mono orig x _ _ (fun r hr => by simp [hr]) h1
+
+theorem tbl_chain_kind : ∀ k : Kind, inChain (listOf k) = true → (k == .namelist) = false ∧ isProc k = false := by
+  intro k; cases k <;> decide
+
+theorem mem_unitPagesShown (orig : List Ent) (pg : Nat) (ids : List Nat) (x : Nat) (hx : x ∈ ids) :
+    (us : Ents) → (pg, ids) ∈ us.unitPagesShown orig →
+    x ∈ us.rendered .file ∨ x ∈ refsShown orig (us.renderedRefs .file)
+  | .nil => by simp [Ents.unitPagesShown]
+  | .cons (.mk i cs) rest => by
+    intro h
+    simp only [Ents.unitPagesShown, Ent.info, Ent.kids, List.mem_append, List.mem_cons] at h
+    simp only [Ents.rendered, Ents.renderedRefs, List.mem_append]
+    rcases h with (h | h) | h
+    · simp only [Prod.mk.injEq] at h
+      rw [h.2] at hx
+      rcases mem_pageShows orig .file x _ hx with h1 | h1
+      · exact Or.inl (Or.inl h1)
+      · right
+        exact refsShown_mono orig x _ _ (fun r hr => by simp [hr]) h1
+    · cases hc : inChain (listOf i.kind)
+      · simp [hc] at h
+      · simp only [hc, if_true] at h
+        obtain ⟨hnn, hnp⟩ := tbl_chain_kind _ hc
+        rcases mem_memberPages orig i.kind pg ids x hx cs h with h1 | h1
+        · left; left
+          simp only [Ent.rendered, hnn, hnp, Bool.false_and, Bool.false_eq_true, if_false, List.mem_cons]
+          exact Or.inr h1
+        · right
+          refine refsShown_mono orig x _ _ ?_ h1
+          intro r hr
+          simp only [Ent.renderedRefs, hnn, hnp, Bool.false_and, Bool.false_eq_true, if_false, List.mem_append]
+          exact Or.inl (Or.inr hr)
+    · rcases mem_unitPagesShown orig pg ids x hx rest h with h1 | h1
+      · exact Or.inl (Or.inr h1)
+      · right
+        exact refsShown_mono orig x _ _ (fun r hr => by simp [hr]) h1
+
+theorem mem_filePagesShown (cfg : Cfg) (orig : List Ent) (pg : Nat) (ids : List Nat) (x : Nat) (hx : x ∈ ids) :
+    (p : List Ent) → wfProject p = true → (pg, ids) ∈ filePagesShown orig (pruneProject cfg p) →
+    x ∈ renderedOf (pruneProject cfg p) ∨ x ∈ refsShown orig (renderedRefsOf (pruneProject cfg p))
+  | [], _ => by simp [pruneProject, filePagesShown]
+  | (.mk i cs) :: fs, hw => by
+    simp only [wfProject, Bool.and_eq_true] at hw
+    have hwf := hw.1
+    simp only [wfFile, Bool.and_eq_true, beq_iff_eq] at hwf
+    intro h
+    simp only [pruneProject, pruneFile, filePagesShown, Ent.info, Ent.kids, List.mem_append, List.mem_cons] at h
+    simp only [pruneProject, pruneFile, renderedOf, renderedRefsOf, List.mem_append]
+    have hk := hwf.1
+    rcases h with (h | h) | h
+    · simp only [Prod.mk.injEq] at h
+      rw [h.2] at hx
+      simp only [List.mem_singleton] at hx
+      left; left
+      simp [Ent.rendered, hk, hx, isProc]
+    · rcases mem_unitPagesShown orig pg ids x hx _ h with h1 | h1
+      · left; left
+        simp [Ent.rendered, hk, isProc, h1]
+      · right
+        refine refsShown_mono orig x _ _ ?_ h1
+        intro r hr
+        simp [Ent.renderedRefs, hk, isProc, hr]
+    · rcases mem_filePagesShown cfg orig pg ids x hx fs hw.2 h with h1 | h1
+      · exact Or.inl (Or.inr h1)
+      · right
+        exact refsShown_mono orig x _ _ (fun r hr => by simp [hr]) h1
+
+theorem mem_nmlPagesShown (pg : Nat) (ids : List Nat) (x : Nat) (hx : x ∈ ids) :
+    (ns : List Ent) → (pg, ids) ∈ nmlPagesShown ns → x ∈ nmlShown ns
+  | [] => by simp [nmlPagesShown]
+  | n :: ns => by
+    intro h
+    simp only [nmlPagesShown, List.mem_cons] at h
+    simp only [nmlShown, List.mem_append]
+    rcases h with h | h
+    · simp only [Prod.mk.injEq] at h
+      rw [h.2] at hx
+      exact Or.inl hx
+    · exact Or.inr (mem_nmlPagesShown pg ids x hx ns h)
+
+/-- per page: whatever the model says a page shows is shown by the site-level abstraction -/
+theorem mem_pagesShown (cfg : Cfg) (p : List Ent) (hw : wfProject p = true) (pg : Nat) (ids : List Nat)
+    (h : (pg, ids) ∈ pagesShown cfg p) (x : Nat) (hx : x ∈ ids) : x ∈ shownIds cfg p := by
+  simp only [pagesShown, List.mem_append] at h
+  simp only [shownIds, List.mem_append]
+  rcases h with h | h
+  · rcases mem_filePagesShown cfg p pg ids x hx p hw h with h1 | h1
+    · exact Or.inl (Or.inl h1)
+    · exact Or.inl (Or.inr h1)
+  · exact Or.inr (mem_nmlPagesShown pg ids x hx _ h)
+
+end Ford.Display
+
+namespace Ford.Display
+open Ford.Display.Spec Ford.Generated
+
+/-! ### `extends(...)` links: outside block data only a type that survived `prune()` is linked -/
+
+mutual
+theorem noBlockData_find (n : Nat) : (e : Ent) → e.noBlockData = true → (r : Ent) → e.find n = some r →
+    r.info.kind ≠ .blockdata
+  | .mk i cs, h, r, hf => by
+    simp only [Ent.noBlockData, Bool.and_eq_true, bne_iff_ne] at h
+    simp only [Ent.find] at hf
+    split at hf
+    · cases hf; exact h.1
+    · exact noBlockData_finds n cs h.2 r hf
+theorem noBlockData_finds (n : Nat) : (es : Ents) → es.noBlockData = true → (r : Ent) → es.find n = some r →
+    r.info.kind ≠ .blockdata
+  | .nil, _, r, hf => by simp [Ents.find] at hf
+  | .cons e rest, h, r, hf => by
+    simp only [Ents.noBlockData, Bool.and_eq_true] at h
+    simp only [Ents.find] at hf
+    split at hf
+    · rename_i r' hr
+      cases hf
+      exact noBlockData_find n e h.1 r hr
+    · exact noBlockData_finds n rest h.2 r hf
+end
+
+theorem noBlockData_findIn (n : Nat) : (p : List Ent) → noBlockDataIn p = true → (r : Ent) → findIn n p = some r →
+    r.info.kind ≠ .blockdata
+  | [], _, r, hf => by simp [findIn] at hf
+  | e :: es, h, r, hf => by
+    simp only [noBlockDataIn, Bool.and_eq_true] at h
+    simp only [findIn] at hf
+    split at hf
+    · rename_i r' hr
+      cases hf
+      exact noBlockData_find n e h.1 r hr
+    · exact noBlockData_findIn n es h.2 r hf
+
+theorem tbl_visibleBeforePrune : ∀ pk : Kind, pk ≠ .blockdata → visibleBeforePrune pk .type = false := by
+  intro pk; cases pk <;> simp [visibleBeforePrune]
+
+/-- without block data, a type is linked only if some `prune()` kept it -/
+theorem extLinked_visible (orig q : List Ent) (hn : noBlockDataIn orig = true) (m : Nat)
+    (h : extLinked orig q m = true) : m ∈ visibleIdsOf q := by
+  simp only [extLinked, Bool.or_eq_true, List.contains_iff_mem] at h
+  rcases h with h | h
+  · exact h
+  · simp only [parentKindIn] at h
+    split at h
+    · rename_i pk hpk
+      split at hpk
+      · rename_i par _
+        cases hf : findIn par orig with
+        | none => simp [hf] at hpk
+        | some r =>
+          simp only [hf, Option.map_some, Option.some.injEq] at hpk
+          have := noBlockData_findIn par orig hn r hf
+          rw [hpk] at this
+          rw [tbl_visibleBeforePrune pk this] at h
+          exact absurd h (by decide)
+      · simp at hpk
+    · exact absurd h (by decide)
+
+mutual
+theorem mem_extLinks (orig q : List Ent) (hn : noBlockDataIn orig = true) (t m : Nat) :
+    (e : Ent) → (t, m) ∈ e.extLinks orig q → m ∈ visibleIdsOf q
+  | .mk i cs => by
+    intro h
+    simp only [Ent.extLinks, List.mem_append] at h
+    rcases h with h | h
+    · split at h
+      · rename_i m' _ _
+        by_cases hl : extLinked orig q m' = true
+        · simp only [hl, if_true, List.mem_singleton, Prod.mk.injEq] at h
+          rw [h.2]; exact extLinked_visible orig q hn m' hl
+        · simp [hl] at h
+      · simp at h
+    · exact mems_extLinks orig q hn t m cs h
+theorem mems_extLinks (orig q : List Ent) (hn : noBlockDataIn orig = true) (t m : Nat) :
+    (es : Ents) → (t, m) ∈ es.extLinks orig q → m ∈ visibleIdsOf q
+  | .nil => by simp [Ents.extLinks]
+  | .cons e rest => by
+    intro h
+    simp only [Ents.extLinks, List.mem_append] at h
+    rcases h with h | h
+    · exact mem_extLinks orig q hn t m e h
+    · exact mems_extLinks orig q hn t m rest h
+end
+
+theorem mem_extLinksOf (orig q : List Ent) (hn : noBlockDataIn orig = true) (t m : Nat) :
+    (es : List Ent) → (t, m) ∈ extLinksOf orig q es → m ∈ visibleIdsOf q
+  | [] => by simp [extLinksOf]
+  | e :: es => by
+    intro h
+    simp only [extLinksOf, List.mem_append] at h
+    rcases h with h | h
+    · exact mem_extLinks orig q hn t m e h
+    · exact mem_extLinksOf orig q hn t m es h
+
+mutual
+theorem mem_visibleIds_ids (x : Nat) : (e : Ent) → x ∈ e.visibleIds → x ∈ e.ids
+  | .mk i cs => by
+    intro h
+    simp only [Ent.visibleIds, List.mem_append] at h
+    simp only [Ent.ids, List.mem_cons]
+    rcases h with h | h
+    · left
+      by_cases hv : i.visible = true
+      · simpa [hv] using h
+      · simp [hv] at h
+    · exact Or.inr (mems_visibleIds_ids x cs h)
+theorem mems_visibleIds_ids (x : Nat) : (es : Ents) → x ∈ es.visibleIds → x ∈ es.ids
+  | .nil => by simp [Ents.visibleIds]
+  | .cons e rest => by
+    intro h
+    simp only [Ents.visibleIds, List.mem_append] at h
+    simp only [Ents.ids, List.mem_append]
+    rcases h with h | h
+    · exact Or.inl (mem_visibleIds_ids x e h)
+    · exact Or.inr (mems_visibleIds_ids x rest h)
+end
+
+theorem mem_visibleIdsOf_idsOf (x : Nat) : (q : List Ent) → x ∈ visibleIdsOf q → x ∈ idsOf q
+  | [] => by simp [visibleIdsOf]
+  | e :: es => by
+    intro h
+    simp only [visibleIdsOf, List.mem_append] at h
+    simp only [idsOf, List.mem_append]
+    rcases h with h | h
+    · exact Or.inl (mem_visibleIds_ids x e h)
+    · exact Or.inr (mem_visibleIdsOf_idsOf x es h)
 
 end Ford.Display
